@@ -99,7 +99,7 @@ def _stub_key(interp, st, args, kwargs, frame, node):
     return [Outcome("ok", st, Sym(("call", "key", "of-value"), {"USER"}))]
 
 
-def check(ctx, rep: Report):
+def _check_main(ctx, rep: Report):
     ci = ctx.p.find_class("KeyedSet")
     mrel = ci.module.relpath
     rep.extra["exhaustive"] = True
@@ -237,3 +237,11 @@ def check(ctx, rep: Report):
         rep.oblige("C14.ALG", f"{c.name}.{mname}", ok, f"uses {sorted(uses)}")
         if not ok:
             rep.violate(Violation("C14.ALG", f"C14.ALG|{mname}", f"{c.name}.{mname} reaches the storage directly ({sorted(direct)}) instead of the key-resolving primitives", "", f"{c.name}.{mname}"))
+
+
+def check(ctx, rep):
+    from . import keyedrules, metarules, shared
+    _check_main(ctx, rep)
+    keyedrules.keyedset_eq(ctx, rep, "C14.EQ")
+    keyedrules.keyedset_init(ctx, rep, "C14.INIT")
+    keyedrules.key_precedence(ctx, rep, "C14.KEYFN")
